@@ -518,6 +518,8 @@ def t_ncp( ctx ):
             kws = { k.arg: k.value for k in c.keywords }
     if not kws:
         raise AnalysisError( 'Connection.decoding: dotdict( field=... ) not found' )
+    from .fold import run_block
+    pre = [ st for st in dec.body if isinstance( st, ast.Assign ) and all( isinstance( t_, ast.Name ) for t_ in st.targets ) and not any( is_call_to( c_, 'dotdict' ) for c_ in ast.walk( st )) ]
     words = [ 0, 0xFFFFFFFF ] + [ 1 << k for k in range( 32 ) ] + [ 0x43F4, 0x420001F4 ]
     for f, ( sh, mask ) in sorted( spec.NCP_FIELDS_SMALL.items() ):
         e = kws.get( f )
@@ -529,7 +531,9 @@ def t_ncp( ctx ):
                 if not large and w > 0xFFFF:
                     continue
                 try:
-                    got = fold( e, { 'self._NCP': w, 'self._large': large } )
+                    env_ = { 'self._NCP': w, 'self._large': large }
+                    run_block( pre, env_, ignore_calls=( 'log', ))		# locals the fields are written with ( shift = 16 if self._large else 0 )
+                    got = fold( e, env_ )
                 except NoFold as exc:
                     raise AnalysisError( 'Connection.decoding: %s not foldable: %s' % ( f, exc ))
                 want = ( w & ( spec.NCP_FIELDS_LARGE['size'][1] if large else mask )) if f == 'size' else ( w >> ( sh + ( 16 if large else 0 ))) & mask
